@@ -199,6 +199,87 @@ def Session.pull (s : Session) : Session × PullRes :=
     | (.end, s') => (s', .ok ([], true))
     | (.fail e, s') => (s', .error e)
 
+/-! ### `Session::pull` / `Session::recv`, arm by arm (facts read off the source) -/
+
+/-- what an arm of the first `match self.recv()` (no lookahead held) does -/
+inductive FirstArm where
+  | hold        -- `Msg::Chunk(c) => c` : becomes `current`, go on to the peek
+  | emptyLast   -- `return Ok((Vec::new(), true))`
+  | err         -- `return Err(e)`
+  | other       -- unrecognised (pessimistic: treated as an error that the theorems do not accept)
+  deriving DecidableEq, Repr
+
+/-- what an arm of the second `match self.recv()` (the peek) does -/
+inductive PeekArm where
+  | more        -- `{ self.lookahead = Some(next); Ok((current, false)) }`
+  | moreDrop    -- `Ok((current, false))` without storing the peeked chunk
+  | last        -- `Ok((current, true))`
+  | err         -- `Err(e)`
+  | other
+  deriving DecidableEq, Repr
+
+structure PullFacts where
+  lookaheadFirst : Bool     -- `match self.lookahead.take() { Some(c) => c, None => … }`
+  firstChunk : FirstArm
+  firstEnd : FirstArm
+  firstFail : FirstArm
+  peekChunk : PeekArm
+  peekEnd : PeekArm
+  peekFail : PeekArm
+  closeIsFail : Bool        -- `recv`: `unwrap_or_else(|_| Msg::Fail(..))`
+  deriving DecidableEq, Repr
+
+def specPull : PullFacts :=
+  { lookaheadFirst := true, firstChunk := .hold, firstEnd := .emptyLast, firstFail := .err,
+    peekChunk := .more, peekEnd := .last, peekFail := .err, closeIsFail := true }
+
+def unrecognised : String := "unrecognised arm"
+
+def Session.recvA (A : PullFacts) (s : Session) : Msg × Session :=
+  match s.rx with
+  | [] => (if A.closeIsFail then .fail vanished else .end, s)
+  | m :: r => (m, { s with rx := r })
+
+def errOf : Msg → String
+  | .fail e => e
+  | _ => unrecognised
+
+def Session.peekA (A : PullFacts) (s : Session) (current : Bytes) : Session × PullRes :=
+  let (m, s') := s.recvA A
+  let arm := match m with
+    | .chunk _ => A.peekChunk
+    | .end => A.peekEnd
+    | .fail _ => A.peekFail
+  match arm with
+  | .more => (match m with | .chunk n => { s' with lookahead := some n } | _ => s', .ok (current, false))
+  | .moreDrop => (s', .ok (current, false))
+  | .last => (s', .ok (current, true))
+  | .err => (s', .error (errOf m))
+  | .other => (s', .error unrecognised)
+
+/-- `Session::pull` with the arms as extracted. -/
+def Session.pullA (A : PullFacts) (s : Session) : Session × PullRes :=
+  match (if A.lookaheadFirst then s.lookahead else none) with
+  | some c => Session.peekA A { s with lookahead := none } c
+  | none =>
+    let (m, s') := s.recvA A
+    let arm := match m with
+      | .chunk _ => A.firstChunk
+      | .end => A.firstEnd
+      | .fail _ => A.firstFail
+    match arm with
+    | .hold => s'.peekA A (match m with | .chunk c => c | _ => [])
+    | .emptyLast => (s', .ok ([], true))
+    | .err => (s', .error (errOf m))
+    | .other => (s', .error unrecognised)
+
+def pullAllA (A : PullFacts) : Nat → Session → List PullRes
+  | 0, _ => []
+  | n + 1, s =>
+    match s.pullA A with
+    | (s', .ok (c, false)) => .ok (c, false) :: pullAllA A n s'
+    | (_, r) => [r]
+
 /-- Pull until a terminal result (at most `fuel` pulls). -/
 def pullAll : Nat → Session → List PullRes
   | 0, _ => []
